@@ -372,6 +372,16 @@ func genKeyedOpsProgram(rt *rapid.T) cprog {
 	sb.WriteString("show(array_flip(array_keys($a)));\n")
 	exp.WriteString(show(flipped))
 	labels = append(labels, "array_flip")
+	// methods of a class as reflection lists them: declaration order
+	sb.WriteString("class Rk {")
+	var mnames []string
+	for _, e := range A {
+		fmt.Fprintf(&sb, " function m_%s() { return %d; }", e.k, e.v)
+		mnames = append(mnames, "m_"+e.k)
+	}
+	sb.WriteString(" }\necho implode(',', (new ReflectionClass('Rk'))->getMethods()), \"\\n\";\n")
+	exp.WriteString(strings.Join(mnames, ",") + "\n")
+	labels = append(labels, "reflection-getMethods")
 	return cprog{Src: sb.String(), Expected: exp.String(), Classes: 0, Entries: len(merged), Labels: labels}
 }
 
